@@ -276,8 +276,8 @@ class XMLResourceLoader:
                 else:
                     yield event, node  # comment or pi node
 
-        except (SyntaxError, LookupError) as err:
-            # LookupError: unknown encoding in the XML declaration
+        except (SyntaxError, LookupError, ValueError) as err:
+            # LookupError/ValueError: unknown or unsupported (multi-byte) encoding
             raise XMLResourceParseError("invalid XML syntax: {}".format(err)) from err
         finally:
             self._lazy_lock.release()
@@ -328,8 +328,8 @@ class XMLResourceLoader:
                     if end_ns:
                         nsmap_stack.pop()
                         end_ns = False
-        except (SyntaxError, LookupError) as err:
-            # LookupError: unknown encoding in the XML declaration
+        except (SyntaxError, LookupError, ValueError) as err:
+            # LookupError/ValueError: unknown or unsupported (multi-byte) encoding
             raise XMLResourceParseError("invalid XML syntax: {}".format(err)) from err
 
     def _clear(self, elem: ElementType,
